@@ -79,6 +79,8 @@ def last_state_field(out, field):
 
 def run(chk, tier, replay):
     binary = common.build_harness(E.HARNESS)
+    if replay:
+        return E.replay_file(chk, binary, replay)
     chk.assumptions += [
         "TLA+ format modules (Hybrid, BitPack, Plain, DeltaBP, DeltaLen, DeltaStr, Bss, DictEnc) validated by MC_HybridSelf / MC_EncSelf (round trips, Encodings.md examples)",
         "encoders are called inside their documented domain: values < 2^bit_width, levels 0..32767 at widths <= 15, always-sufficient output capacity, bitpack_32 output sized in whole 8-value groups",
